@@ -41,6 +41,8 @@ def conds_Mux_serveHTTP : List String := [
 def conds_params_set : List String := [
    "range ps",
    "range p.fds",
+   "if err != nil",
+   "return err",
    "if len(p.fds)-1 == i",
    "switch",
    "case fd.IsList()",
